@@ -273,7 +273,71 @@ type edgeCond struct {
 // uniqueEdgeInto reports, for an If-terminated block x, whether b is entered
 // only through x's true (0) or false (1) edge: the successor s dominates b and
 // s has x as its only predecessor.
-func condsDominating(b *ssa.BasicBlock) []edgeCond {
+func condsDominating(b *ssa.BasicBlock) []edgeCond { return condsDominatingD(b, 0) }
+
+func peelNot(cond ssa.Value, val bool) (ssa.Value, bool) {
+	for {
+		u, ok := cond.(*ssa.UnOp)
+		if !ok || u.Op != token.NOT {
+			return cond, val
+		}
+		cond, val = u.X, !val
+	}
+}
+
+// impliedByPhi: a boolean phi that is not loop-carried and is known to be val
+// (the joined result of a folded predicate helper: `return false` / `return
+// isWatcher`) can only have come through an edge whose operand is not the
+// opposite constant; when exactly one such edge exists, its operand has that
+// value too and everything that holds where the edge leaves holds as well.
+func impliedByPhi(cond ssa.Value, val bool, iff *ssa.If, depth int) []edgeCond {
+	ph, ok := cond.(*ssa.Phi)
+	if !ok || depth >= 3 {
+		return nil
+	}
+	if bt, ok := ph.Type().Underlying().(*types.Basic); !ok || bt.Kind() != types.Bool {
+		return nil
+	}
+	blk := ph.Block()
+	for _, p := range blk.Preds {
+		if blk.Dominates(p) {
+			return nil
+		}
+	}
+	live, n := -1, 0
+	for ei, e := range ph.Edges {
+		if cst, isC := e.(*ssa.Const); isC && cst.Value != nil && cst.Value.Kind() == constant.Bool && constant.BoolVal(cst.Value) != val {
+			continue
+		}
+		n++
+		live = ei
+	}
+	if n != 1 {
+		return nil
+	}
+	var out []edgeCond
+	e, pred := ph.Edges[live], blk.Preds[live]
+	if _, isC := e.(*ssa.Const); !isC {
+		c, v := peelNot(e, val)
+		out = append(out, edgeCond{Cond: c, Val: v, If: iff})
+		out = append(out, impliedByPhi(c, v, iff, depth+1)...)
+	}
+	if len(pred.Instrs) > 0 {
+		if iff2, ok := pred.Instrs[len(pred.Instrs)-1].(*ssa.If); ok && pred.Succs[0] != pred.Succs[1] {
+			for k, sc := range pred.Succs {
+				if sc == blk {
+					c, v := peelNot(iff2.Cond, k == 0)
+					out = append(out, edgeCond{Cond: c, Val: v, If: iff2})
+					out = append(out, impliedByPhi(c, v, iff2, depth+1)...)
+				}
+			}
+		}
+	}
+	out = append(out, condsDominatingD(pred, depth+1)...)
+	return out
+}
+
+func condsDominatingD(b *ssa.BasicBlock, depth int) []edgeCond {
 	var out []edgeCond
 	for x := b; x != nil; {
 		id := x.Idom()
@@ -294,6 +358,7 @@ func condsDominating(b *ssa.BasicBlock) []edgeCond {
 							cond, val = u.X, !val
 						}
 						out = append(out, edgeCond{Cond: cond, Val: val, If: iff})
+						out = append(out, impliedByPhi(cond, val, iff, depth)...)
 					}
 				}
 			}
@@ -811,6 +876,9 @@ func earlyLoopExits(f *ssa.Function, h *ssa.BasicBlock, allowErrReturn bool) []*
 						continue
 					}
 				}
+				if exitIsErrorOutcome(b, s) {
+					continue
+				}
 			}
 			out = append(out, b)
 		}
@@ -1041,4 +1109,308 @@ func nonNilByConstruction(v ssa.Value) bool {
 		}
 	}
 	return false
+}
+
+// exitIsErrorOutcome: the edge b -> s leaves a loop as the error outcome of a
+// folded helper: s joins an error value that is non-nil on this edge, and the
+// code after the join returns a non-nil error as soon as it has tested it.
+func exitIsErrorOutcome(b, s *ssa.BasicBlock) bool {
+	// the block that builds the error and jumps to the join
+	for hops := 0; hops < 2; hops++ {
+		if _, isPhi := s.Instrs[0].(*ssa.Phi); isPhi || len(s.Preds) != 1 || len(s.Succs) != 1 {
+			break
+		}
+		if _, isJump := s.Instrs[len(s.Instrs)-1].(*ssa.Jump); !isJump {
+			break
+		}
+		b, s = s, s.Succs[0]
+	}
+	ei := -1
+	for i, p := range s.Preds {
+		if p == b {
+			ei = i
+		}
+	}
+	if ei < 0 {
+		return false
+	}
+	for _, ins := range s.Instrs {
+		ph, ok := ins.(*ssa.Phi)
+		if !ok {
+			break
+		}
+		if types.TypeString(ph.Type(), nil) != "error" {
+			continue
+		}
+		if e := ph.Edges[ei]; !(nonNilByConstruction(e) || knownNil(b, e, false)) {
+			continue
+		}
+		// follow unconditional jumps to the test of the joined error
+		blk := s
+		for hops := 0; hops < 4; hops++ {
+			last := blk.Instrs[len(blk.Instrs)-1]
+			if iff, ok := last.(*ssa.If); ok {
+				x, nilWhenTrue, okc := nilCheckOf(iff.Cond)
+				if !okc || x != ssa.Value(ph) {
+					break
+				}
+				rb := blk.Succs[0]
+				if nilWhenTrue {
+					rb = blk.Succs[1]
+				}
+				if r, ok := rb.Instrs[len(rb.Instrs)-1].(*ssa.Return); ok {
+					rv := retVals(r)
+					if len(rv) > 0 && !isNilConst(rv[len(rv)-1]) && types.TypeString(rv[len(rv)-1].Type(), nil) == "error" {
+						return true
+					}
+				}
+				break
+			}
+			if _, ok := last.(*ssa.Jump); ok && len(blk.Succs) == 1 {
+				// nothing but the jump (and phis / debug refs) may happen on the way
+				blk = blk.Succs[0]
+				continue
+			}
+			break
+		}
+	}
+	return false
+}
+
+// boolCarrier: the value through which a boolean is tested: v itself or, when
+// the predicate computing it was folded into the function, the phi that joins
+// it with false constants only (so the phi is true exactly when v was computed
+// and is true).
+func boolCarrier(v ssa.Value) ssa.Value {
+	for hops := 0; hops < 3; hops++ {
+		refs := v.Referrers()
+		if refs == nil {
+			return v
+		}
+		var ph *ssa.Phi
+		n := 0
+		for _, r := range *refs {
+			if _, dbg := r.(*ssa.DebugRef); dbg {
+				continue
+			}
+			n++
+			if p, ok := r.(*ssa.Phi); ok {
+				ph = p
+			}
+		}
+		if n != 1 || ph == nil {
+			return v
+		}
+		for _, e := range ph.Edges {
+			if e == v {
+				continue
+			}
+			cst, ok := e.(*ssa.Const)
+			if !ok || cst.Value == nil || cst.Value.Kind() != constant.Bool || constant.BoolVal(cst.Value) {
+				return v
+			}
+		}
+		v = ph
+	}
+	return v
+}
+
+// feasibleSuccs: the successors of block b that can be taken when b was entered
+// from predecessor p, as far as b's branch condition is decided by the values
+// b's phis take on that edge (a constant boolean; a nil constant compared with
+// nil; the length of a nil constant compared with 0).
+func feasibleSuccs(b, p *ssa.BasicBlock) []int {
+	all := make([]int, len(b.Succs))
+	for i := range all {
+		all[i] = i
+	}
+	if len(b.Instrs) == 0 || p == nil {
+		return all
+	}
+	iff, ok := b.Instrs[len(b.Instrs)-1].(*ssa.If)
+	if !ok {
+		return all
+	}
+	ei := -1
+	for i, q := range b.Preds {
+		if q == p {
+			ei = i
+		}
+	}
+	if ei < 0 {
+		return all
+	}
+	subst := func(v ssa.Value) ssa.Value {
+		if ph, ok := v.(*ssa.Phi); ok && ph.Block() == b {
+			return ph.Edges[ei]
+		}
+		return v
+	}
+	cond, want := peelNot(iff.Cond, true)
+	var known, val bool
+	switch x := subst(cond).(type) {
+	case *ssa.Const:
+		if x.Value != nil && x.Value.Kind() == constant.Bool {
+			known, val = true, constant.BoolVal(x.Value)
+		}
+	case *ssa.BinOp:
+		if x.Block() != b {
+			break
+		}
+		if nv, nilWhenTrue, ok := nilCheckOf(x); ok {
+			e := subst(nv)
+			if isNilConst(e) {
+				known, val = true, nilWhenTrue
+			} else if nonNilByConstruction(e) {
+				known, val = true, !nilWhenTrue
+			}
+			break
+		}
+		if call, ok := x.X.(*ssa.Call); ok && call.Block() == b {
+			if bi, ok := call.Call.Value.(*ssa.Builtin); ok && bi.Name() == "len" && isNilConst(subst(call.Call.Args[0])) {
+				if n, ok := constInt(x.Y); ok {
+					known = true
+					switch x.Op {
+					case token.EQL:
+						val = 0 == n
+					case token.NEQ:
+						val = 0 != n
+					case token.GTR:
+						val = 0 > n
+					case token.GEQ:
+						val = 0 >= n
+					case token.LSS:
+						val = 0 < n
+					case token.LEQ:
+						val = 0 <= n
+					default:
+						known = false
+					}
+				}
+			}
+		}
+	}
+	if !known {
+		return all
+	}
+	if val == want {
+		return []int{0}
+	}
+	return []int{1}
+}
+
+// returnsReachableFrom lists the returns reachable from the edge p -> b,
+// pruning branches decided by the phi values of the edge just taken.
+func returnsReachableFrom(p, b *ssa.BasicBlock) []*ssa.Return {
+	type st struct{ b, p *ssa.BasicBlock }
+	seen := map[st]bool{}
+	var out []*ssa.Return
+	work := []st{{b, p}}
+	for len(work) > 0 {
+		x := work[len(work)-1]
+		work = work[:len(work)-1]
+		if seen[x] {
+			continue
+		}
+		seen[x] = true
+		if r, ok := x.b.Instrs[len(x.b.Instrs)-1].(*ssa.Return); ok {
+			out = append(out, r)
+			continue
+		}
+		for _, si := range feasibleSuccs(x.b, x.p) {
+			work = append(work, st{x.b.Succs[si], x.b})
+		}
+	}
+	return out
+}
+
+// resolveLocalField: v loads a field of a local struct variable that never
+// escapes and whose field is written exactly once - by the literal the variable
+// is initialised from, or by one direct assignment: that value. Otherwise v.
+func resolveLocalField(v ssa.Value) ssa.Value {
+	ld, ok := v.(*ssa.UnOp)
+	if !ok || ld.Op != token.MUL {
+		return v
+	}
+	fa, ok := ld.X.(*ssa.FieldAddr)
+	if !ok {
+		return v
+	}
+	al, ok := fa.X.(*ssa.Alloc)
+	if !ok {
+		return v
+	}
+	name := fieldName(fa.X.Type(), fa.Field)
+	var vals []ssa.Value
+	for _, r := range *al.Referrers() {
+		switch x := r.(type) {
+		case *ssa.FieldAddr:
+			for _, rr := range *x.Referrers() {
+				switch y := rr.(type) {
+				case *ssa.Store:
+					if y.Addr != ssa.Value(x) {
+						return v // the field's address is stored somewhere
+					}
+					if x.Field == fa.Field {
+						vals = append(vals, y.Val)
+					}
+				case *ssa.UnOp, *ssa.DebugRef:
+				default:
+					return v // the field's address is passed on
+				}
+			}
+		case *ssa.Store:
+			if x.Addr != ssa.Value(al) {
+				return v // the variable's address is stored
+			}
+			src, ok := x.Val.(*ssa.UnOp)
+			if !ok || src.Op != token.MUL {
+				return v
+			}
+			lit, ok := src.X.(*ssa.Alloc)
+			if !ok {
+				return v
+			}
+			fv := litField(lit, name)
+			if fv == nil {
+				return v
+			}
+			vals = append(vals, fv)
+		case *ssa.UnOp, *ssa.DebugRef:
+		default:
+			return v // escapes
+		}
+	}
+	if len(vals) != 1 {
+		return v
+	}
+	return vals[0]
+}
+
+// derivesAllLive is derivesAll over the outcomes of v that are still possible
+// at block `at` (see deadPhiEdges): the error outcome of a folded helper, tested
+// away before `at`, is not a value v can hold there.
+func derivesAllLive(v ssa.Value, at *ssa.BasicBlock, pred func(ssa.Value) bool, fo *flowOpts) bool {
+	var rec func(v ssa.Value, d int) bool
+	rec = func(v ssa.Value, d int) bool {
+		x := stripConv(v)
+		if ph, ok := x.(*ssa.Phi); ok && d < 4 {
+			dead := deadPhiEdges(ph, at)
+			if len(dead) > 0 {
+				n := 0
+				for ei, e := range ph.Edges {
+					if dead[ei] {
+						continue
+					}
+					n++
+					if !rec(e, d+1) {
+						return false
+					}
+				}
+				return n > 0
+			}
+		}
+		return derivesAll(v, pred, fo)
+	}
+	return rec(v, 0)
 }
